@@ -36,7 +36,7 @@ def all_factorisations(N, constraint="any", periodic=(True, True, True)):
 def draw_case(dec, p="cfg", thorough=False, want_tab=None):
     kind = SYSTEMS[dec.pick(f"{p}/system", [4, 2, 2, 1])]
     cfg = dict(system=kind, sys_seed=1 + dec(f"{p}/sys_seed", 500))
-    ch = (2, 3, 4, 6, 5, 1) if thorough else (2, 3, 4, 1, 6)
+    ch = (2, 3, 4, 6, 5, 1, 7) if thorough else (2, 3, 4, 1, 6, 5, 7)
     if kind in ("random", "random_big"):
         cfg["num_wann"] = (2 + dec(f"{p}/num_wann", 2)) if kind == "random" else 4
         cfg["nRvec"] = 7 if kind == "random" else 12
